@@ -368,8 +368,14 @@ fn cmp_read() {
         let (comp, _) = compress_stream(&data, 1);
         // the same scenario over a source that hands out ONE byte per read (a decompressor then
         // stops fetching as soon as a block's output is complete)
-        if let Some(e) = one_byte_source_scenario(&comp, &data, v_u64("c_pos", 0).min(total)) {
-            return Some(e);
+        {
+            // (own 2-block stream: independent of the solver's table, so that it also runs when
+            //  no witness values could be extracted)
+            let d2 = data_of(BLOCK + 100, 1);
+            let (c2, _) = compress_stream(&d2, 1);
+            if let Some(e) = one_byte_source_scenario(&c2, &d2, BLOCK) {
+                return Some(e);
+            }
         }
         let mut rd = CompressionLayerReader::new(Box::new(RawLayerReader::new(Cursor::new(comp)))).unwrap();
         rd.initialize().unwrap();
